@@ -97,13 +97,24 @@ def plan(tier, seed):
         jobs.append(("prog", n_sub, ch, nchunk, seed, 10 ** 6))
     for k in range(4):
         jobs.append(("big", k, seed, 50000))
+    for part in (("asm", 0), ("asm", 1), ("hand", 0), ("hand", 1)):
+        jobs.append(("cliflow", seed, part, 10 ** 7))
     jobs.sort(key=lambda j: -j[-1])
     return jobs
 
 
 def run_job(job):
     env.quiet()
-    return {"fn": job_fn, "prog": job_prog, "big": job_big}[job[0]](job)
+    return {"fn": job_fn, "prog": job_prog, "big": job_big, "cliflow": job_cliflow}[job[0]](job)
+
+
+def job_cliflow(job):
+    """`mchap call-exact` command line with per-sample ploidy / inbreeding files vs the reference posterior (vmc/cliflow.py)"""
+    from .. import cliflow
+
+    r = Result()
+    cliflow.exact_flow(r, {"kind": "job", "job": job}, job[1], tuple(job[2]))
+    return r
 
 
 def job_big(job):
